@@ -2,7 +2,7 @@
    C02: "Acknowledged writes survive any crash; recovery is all-or-nothing per batch."
 
    Model: Crash/Model.v — every store operation (KeyValueStore::open with its log replay and orphan
-   clean-up, write, memtable flush, merging compaction) as the sequence of file-system mutating
+   clean-up, write, memtable flush, merging or garbage-collecting compaction) as the sequence of file-system mutating
    calls it issues, over files that are lists of whole write() calls with a durable prefix.
    Transition system `reach` (Crash/ProofsLts.v): from the empty directory, any sequence of open /
    write / flush / compaction (merging or garbage-collecting), an operation that returns an I/O
@@ -12,7 +12,7 @@
    write() calls that covers the synced ones; process death = keep everything, power loss as the
    property words it = keep exactly the synced prefix; both are instances), any number of times.
    Ghost field `c_hist`: every write batch issued so far, in order, flagged true when its call
-   returned Ok and false when a crash took it in flight.  `sel h W`: W keeps every acknowledged
+   returned Ok and false when a crash took it in flight, when it returned an error, or when the store refused it.  `sel h W`: W keeps every acknowledged
    batch of h and some of the others, each whole, in order.  `explains W E`: for every key the
    newest version among the entries E reads as the last write to that key in W (`shows`, `spec`),
    and every entry of E belongs to a batch of W.  The statements are about what a reader can
@@ -56,6 +56,10 @@ Proof. exact merge_accepted. Qed.
 
 Theorem C02_acceptedb_sound : forall v o, acceptedb v o = true -> accepted v o.
 Proof. exact acceptedb_sound. Qed.
+
+(* the hypothesis of 1c holds in every reachable open state *)
+Theorem C02_timestamps_unique : forall c v, reach c -> c_v c = Some v -> ts_unique (all_entries v).
+Proof. exact timestamps_unique. Qed.
 
 (* ---- 2. both crash models of the property are cuts: what is left when the process dies between
    two calls (everything written is kept) and what is left when, in addition, every byte written
